@@ -3,4 +3,12 @@ package mon
 
 import (
 	_ "verif/mon/c10"
+	_ "verif/mon/c11"
+	_ "verif/mon/c12"
+	_ "verif/mon/c13"
+	_ "verif/mon/c15"
+	_ "verif/mon/c16"
+	_ "verif/mon/c17"
+	_ "verif/mon/c18"
+	_ "verif/mon/c20"
 )
